@@ -219,17 +219,31 @@ func CheckReport(gp *gen.Prof, c Conf, o *vk.Obs) []string {
 			e.Addf("%s: flat/cum differ from their definition (granularity %s):%s", what, c.Gran, diffRows(mFine.Rows(), got))
 		}
 	}
-	edgesAgree := func(what string, got []model.EdgeRow, names map[string]bool) {
-		// Only edges between listed entries are compared here (C05/C18 own the rest).
-		var g2 []model.EdgeRow
-		for _, ed := range got {
-			if names[ed.From] && names[ed.To] {
-				g2 = append(g2, ed)
+	// Entries whose sums are zero are not listed; an edge touching one cannot be told apart by
+	// name from an edge of a listed entry that prints alike, so such names are left to C05/C18.
+	elided := map[string]bool{}
+	for _, m := range []*model.MReport{mName, mFine} {
+		for _, en := range m.Entries {
+			if en.Flat.V == 0 && en.Cum.V == 0 {
+				elided[en.Name] = true
 			}
 		}
-		model.SortEdges(g2)
-		if fmt.Sprint(g2) != fmt.Sprint(mName.EdgeRows()) && fmt.Sprint(g2) != fmt.Sprint(mFine.EdgeRows()) {
-			e.Addf("%s: edge weights differ from their definition:\n   want %v\n   got  %v", what, mFine.EdgeRows(), g2)
+	}
+	filterEdges := func(in []model.EdgeRow, names map[string]bool) []model.EdgeRow {
+		var out []model.EdgeRow
+		for _, ed := range in {
+			if names[ed.From] && names[ed.To] && !elided[ed.From] && !elided[ed.To] {
+				out = append(out, ed)
+			}
+		}
+		model.SortEdges(out)
+		return out
+	}
+	edgesAgree := func(what string, got []model.EdgeRow, names map[string]bool) {
+		g2 := filterEdges(got, names)
+		w1, w2 := filterEdges(mName.EdgeRows(), names), filterEdges(mFine.EdgeRows(), names)
+		if fmt.Sprint(g2) != fmt.Sprint(w1) && fmt.Sprint(g2) != fmt.Sprint(w2) {
+			e.Addf("%s: edge weights differ from their definition:\n   want %v\n   got  %v", what, w2, g2)
 		}
 	}
 	checkLegend := func(lg *model.Legend, rows []model.Row) {
@@ -397,4 +411,3 @@ func DotRows(out string) ([]model.Row, []model.EdgeRow, *model.Legend, error) {
 	}
 	return rows, edges, lg, nil
 }
-
